@@ -9,7 +9,7 @@ Oracle : partition by linear scan with == (no dict, independent of hashing): eve
          to_list the output is the groups in that order; with a per-item pipeline the output is in
          source order.
 """
-from ..common import Check, Outcome, bootstrap, norm
+from ..common import Check, Outcome, bootstrap, norm, with_prelude, prelude_tags, shrink_prelude, PRELUDE_TAGS
 from .. import windows, model, progs
 
 rs = bootstrap()
@@ -33,10 +33,13 @@ class C04(Check):
     ASSUMPTIONS = ['keys are hashable and == is an equivalence on them (NaN / unhashable keys are outside the statement)']
     ANCHORS = ['rxsci/operators/group_by.py', 'rxsci/operators/multiplex.py', 'rxsci/state/memory_store.py']
     REQUIRED_TAGS = ['top', 'group', 'roll', 'roll_eq', 'split', 'key=kt', 'key=ks', 'key=kbig', 'key=kf', 'key=kmix', 'key=kneg', 'key=kmers', 'key=ktneg', 'key=knp', 'key=kcent', 'per-item', 'to_list',
-                     'many-keys', 'empty', 'over-256-keys']
+                     'many-keys', 'empty', 'over-256-keys'] + PRELUDE_TAGS
     REQUIRED_OBSERVED = ['child_lifetimes_checked', 'parent_lifetimes_checked', 'groups_flushed_at_completion']
 
     def generate(self, rng, tier, shard, nshards):
+        return with_prelude(self._generate(rng, tier, shard, nshards), rng)
+
+    def _generate(self, rng, tier, shard, nshards):
         k = 2600 if tier == 'quick' else 10 ** 7
         names = ['top', 'group', 'roll', 'roll_eq', 'split', 'group>roll', 'roll>group', 'top']
         for j in range(k):
@@ -59,7 +62,8 @@ class C04(Check):
         if not items:
             out.tags.append('empty')
         inner = [['to_list']] if case['inner'] == 'to_list' else [['map', 'add:100']]
-        ob = windows.observe(case['parent_node'], ['group_by', case['key'], None], items, inner=inner)
+        ob = windows.observe(case['parent_node'], ['group_by', case['key'], None], items, inner=inner, prelude=case.get('prelude'))
+        prelude_tags(case, out)
         if ob.snap.err is not None or not ob.snap.done:
             return out.fail('group_by:stream-error', error=repr(ob.snap.err), done=ob.snap.done)
         if ob.odd or ob.orphans:
@@ -92,6 +96,7 @@ class C04(Check):
         return out
 
     def shrink(self, case):
+        yield from shrink_prelude(case)
         items = case['items']
         step = max(1, len(items) // 8)
         while step >= 1:
